@@ -911,3 +911,219 @@ let all_v = self.get_all_nodes();
         self.specs.directed ==> r.is_ok() && out_degree_map(*self, r.unwrap()@),
 //@ end
 }
+
+// ---- C02: edge lists for node SETS: a filter of get_all_edges() by membership of an endpoint ----
+// R-ext (A5): `v.into_iter().filter(f).collect()` (references kept): ASSUMED to keep, in order, exactly the elements for which f
+// answers true; `names.iter().collect::<HashSet<&T>>()`: ASSUMED to be the set of the slice's elements
+pub open spec fn ref_filter_picks<'a, Y: 'a, F: FnMut(&&'a Arc<Y>) -> bool>(v: Seq<&'a Arc<Y>>, r: Seq<&'a Arc<Y>>, keep: Seq<int>, f: F) -> bool {
+    &&& keep.len() == r.len()
+    &&& forall|a: int, b: int| 0 <= a < b < keep.len() ==> keep[a] < keep[b]
+    &&& forall|k: int| 0 <= k < keep.len() ==> 0 <= #[trigger] keep[k] < v.len() && **r[k] == **v[keep[k]] && call_ensures(f, (&v[keep[k]],), true)
+    &&& forall|i: int| 0 <= i < v.len() ==> keep.contains(i) || call_ensures(f, (&#[trigger] v[i],), false)
+}
+#[verifier::external_body]
+pub fn vfilter_collect<'a, Y: 'a, F: FnMut(&&'a Arc<Y>) -> bool>(v: Vec<&'a Arc<Y>>, f: F) -> (r: Vec<&'a Arc<Y>>)
+    requires forall|i: int| 0 <= i < v@.len() ==> call_requires(f, (&#[trigger] v@[i],)),
+    ensures exists|keep: Seq<int>| #[trigger] ref_filter_picks(v@, r@, keep, f),
+{ v.into_iter().filter(f).collect() }
+// A4: HashSet<&T>::contains(&T) is membership (vstd states this for owned and boxed keys only)
+pub broadcast axiom fn axiom_set_ref_contains<T>(m: Set<&T>, k: &T)
+    ensures #[trigger] vstd::std_specs::hash::set_contains_borrowed_key::<&T, T>(m, k) <==> m.contains(k);
+#[verifier::external_body]
+pub fn vslice_to_ref_hashset<'a, T: Eq + Hash>(v: &'a [T]) -> (r: HashSet<&'a T>)
+    ensures forall|x: T| r@.contains(&x) <==> v@.contains(x),
+{ v.iter().collect() }
+// an endpoint of e is named in `names`: either endpoint (mode 0), the target (mode 1, in-edges), the source (mode 2, out-edges)
+pub open spec fn end_in<T: PartialOrd + Send, A>(names: Seq<T>, mode: int, e: Edge<T, A>) -> bool {
+    if mode == 0 { names.contains(e.u) || names.contains(e.v) } else if mode == 1 { names.contains(e.v) } else { names.contains(e.u) }
+}
+// `out` is the subsequence of get_all_edges() (kept positions `keep`, in order) of exactly the edges with an endpoint in `names`
+pub open spec fn edges_selected<T: Eq + PartialOrd + Send + Sync, A: Clone>(g: Graph<T, A>, names: Seq<T>, mode: int, keep: Seq<int>, out: Seq<&Arc<Edge<T, A>>>) -> bool {
+    &&& forall|a: int, b: int| 0 <= a < b < keep.len() ==> keep[a] < keep[b]
+    &&& forall|k: int| 0 <= k < keep.len() ==> 0 <= #[trigger] keep[k] < g.all_edges_seq().len() && end_in(names, mode, g.all_edges_seq()[keep[k]])
+    &&& forall|i: int| 0 <= i < g.all_edges_seq().len() && end_in(names, mode, #[trigger] g.all_edges_seq()[i]) ==> keep.contains(i)
+    &&& out.len() == keep.len()
+    &&& forall|k: int| 0 <= k < keep.len() ==> **#[trigger] out[k] == g.all_edges_seq()[keep[k]]
+}
+
+impl<T, A> Graph<T, A>
+where
+    T: Eq + Clone + PartialOrd + Ord + Hash + Send + Sync + Display,
+    A: Clone,
+{
+//@ extract fn src/graph/query.rs get_edges_for_nodes props=C02,C20 ty=Graph
+//@ rewrite
+-> Result<Vec<&Arc<Edge<T, A>>>, Error>
+//@ with
+-> (r: Result<Vec<&Arc<Edge<T, A>>>, Error>)
+//@ rewrite
+names.iter().collect();
+//@ with
+vslice_to_ref_hashset(names);
+//@ rewrite
+Ok(self
+            .get_all_edges()
+            .into_iter()
+            .filter(|e|
+//@ with
+let all_v = self.get_all_edges();
+        let ghost av = all_v@;
+        let sel_fn = |e: &&Arc<Edge<T, A>>| -> (b: bool)
+            requires key_model_ok::<T>(), vstd::std_specs::hash::obeys_key_model::<&T>(),
+            ensures b == (names_set@.contains(&e.u) || names_set@.contains(&e.v)),
+        { broadcast use axiom_set_ref_contains;
+//@ rewrite
+)
+            .collect())
+//@ with
+ };
+        let out = vfilter_collect(all_v, sel_fn);
+        proof {
+            let keep = choose|keep: Seq<int>| #[trigger] ref_filter_picks(av, out@, keep, sel_fn);
+            assert(ref_filter_picks(av, out@, keep, sel_fn));
+            let alle = self.all_edges_seq();
+            assert forall|k: int| 0 <= k < keep.len() implies 0 <= #[trigger] keep[k] < alle.len() && (names@.contains(alle[keep[k]].u) || names@.contains(alle[keep[k]].v)) by {
+                assert(call_ensures(sel_fn, (&av[keep[k]],), true));
+                assert(**av[keep[k]] == alle[keep[k]]);
+            }
+            assert forall|i: int| 0 <= i < alle.len() && (names@.contains(alle[i].u) || names@.contains(alle[i].v)) implies keep.contains(i) by {
+                assert(keep.contains(i) || call_ensures(sel_fn, (&av[i],), false));
+                assert(**av[i] == alle[i]);
+            }
+            assert(edges_selected(*self, names@, 0, keep, out@));
+        }
+        let res: Result<Vec<&Arc<Edge<T, A>>>, Error> = Ok(out);
+        proof { assert(res.unwrap()@ == out@); }
+        res
+//@ spec
+    requires
+        self.wf_nodes(),
+        key_model_ok::<T>(),
+        // A2, extended: a reference to a node name obeys the key model like the name itself
+        vstd::std_specs::hash::obeys_key_model::<&T>(),
+    ensures
+        // [C02.edges.edges_of_node_set_guards]
+        !(forall|i: int| 0 <= i < names@.len() ==> self.knows(#[trigger] names@[i])) ==> is_err_kind(r, ErrorKind::NodeNotFound),
+        // [C02.edges.edges_of_node_set_is_the_filter_of_all_edges]
+        (forall|i: int| 0 <= i < names@.len() ==> self.knows(#[trigger] names@[i])) ==> r.is_ok()
+            && exists|keep: Seq<int>| #[trigger] edges_selected(*self, names@, 0, keep, r.unwrap()@),
+//@ end
+
+//@ extract fn src/graph/query.rs get_in_edges_for_nodes props=C02,C20 ty=Graph
+//@ rewrite
+-> Result<Vec<&Arc<Edge<T, A>>>, Error>
+//@ with
+-> (r: Result<Vec<&Arc<Edge<T, A>>>, Error>)
+//@ rewrite
+names.iter().collect();
+//@ with
+vslice_to_ref_hashset(names);
+//@ rewrite
+Ok(self
+            .get_all_edges()
+            .into_iter()
+            .filter(|e|
+//@ with
+let all_v = self.get_all_edges();
+        let ghost av = all_v@;
+        let sel_fn = |e: &&Arc<Edge<T, A>>| -> (b: bool)
+            requires key_model_ok::<T>(), vstd::std_specs::hash::obeys_key_model::<&T>(),
+            ensures b == (names_set@.contains(&e.v)),
+        { broadcast use axiom_set_ref_contains;
+//@ rewrite
+)
+            .collect())
+//@ with
+ };
+        let out = vfilter_collect(all_v, sel_fn);
+        proof {
+            let keep = choose|keep: Seq<int>| #[trigger] ref_filter_picks(av, out@, keep, sel_fn);
+            assert(ref_filter_picks(av, out@, keep, sel_fn));
+            let alle = self.all_edges_seq();
+            assert forall|k: int| 0 <= k < keep.len() implies 0 <= #[trigger] keep[k] < alle.len() && (names@.contains(alle[keep[k]].v)) by {
+                assert(call_ensures(sel_fn, (&av[keep[k]],), true));
+                assert(**av[keep[k]] == alle[keep[k]]);
+            }
+            assert forall|i: int| 0 <= i < alle.len() && (names@.contains(alle[i].v)) implies keep.contains(i) by {
+                assert(keep.contains(i) || call_ensures(sel_fn, (&av[i],), false));
+                assert(**av[i] == alle[i]);
+            }
+            assert(edges_selected(*self, names@, 1, keep, out@));
+        }
+        let res: Result<Vec<&Arc<Edge<T, A>>>, Error> = Ok(out);
+        proof { assert(res.unwrap()@ == out@); }
+        res
+//@ spec
+    requires
+        self.wf_nodes(),
+        key_model_ok::<T>(),
+        // A2, extended: a reference to a node name obeys the key model like the name itself
+        vstd::std_specs::hash::obeys_key_model::<&T>(),
+    ensures
+        // [C02.edges.in_edges_of_node_set_guards]
+        !self.specs.directed ==> is_err_kind(r, ErrorKind::WrongMethod),
+        self.specs.directed && !(forall|i: int| 0 <= i < names@.len() ==> self.knows(#[trigger] names@[i])) ==> is_err_kind(r, ErrorKind::NodeNotFound),
+        // [C02.edges.in_edges_of_node_set_is_the_filter_of_all_edges]
+        self.specs.directed && (forall|i: int| 0 <= i < names@.len() ==> self.knows(#[trigger] names@[i])) ==> r.is_ok()
+            && exists|keep: Seq<int>| #[trigger] edges_selected(*self, names@, 1, keep, r.unwrap()@),
+//@ end
+
+//@ extract fn src/graph/query.rs get_out_edges_for_nodes props=C02,C20 ty=Graph
+//@ rewrite
+-> Result<Vec<&Arc<Edge<T, A>>>, Error>
+//@ with
+-> (r: Result<Vec<&Arc<Edge<T, A>>>, Error>)
+//@ rewrite
+names.iter().collect();
+//@ with
+vslice_to_ref_hashset(names);
+//@ rewrite
+Ok(self
+            .get_all_edges()
+            .into_iter()
+            .filter(|e|
+//@ with
+let all_v = self.get_all_edges();
+        let ghost av = all_v@;
+        let sel_fn = |e: &&Arc<Edge<T, A>>| -> (b: bool)
+            requires key_model_ok::<T>(), vstd::std_specs::hash::obeys_key_model::<&T>(),
+            ensures b == (names_set@.contains(&e.u)),
+        { broadcast use axiom_set_ref_contains;
+//@ rewrite
+)
+            .collect())
+//@ with
+ };
+        let out = vfilter_collect(all_v, sel_fn);
+        proof {
+            let keep = choose|keep: Seq<int>| #[trigger] ref_filter_picks(av, out@, keep, sel_fn);
+            assert(ref_filter_picks(av, out@, keep, sel_fn));
+            let alle = self.all_edges_seq();
+            assert forall|k: int| 0 <= k < keep.len() implies 0 <= #[trigger] keep[k] < alle.len() && (names@.contains(alle[keep[k]].u)) by {
+                assert(call_ensures(sel_fn, (&av[keep[k]],), true));
+                assert(**av[keep[k]] == alle[keep[k]]);
+            }
+            assert forall|i: int| 0 <= i < alle.len() && (names@.contains(alle[i].u)) implies keep.contains(i) by {
+                assert(keep.contains(i) || call_ensures(sel_fn, (&av[i],), false));
+                assert(**av[i] == alle[i]);
+            }
+            assert(edges_selected(*self, names@, 2, keep, out@));
+        }
+        let res: Result<Vec<&Arc<Edge<T, A>>>, Error> = Ok(out);
+        proof { assert(res.unwrap()@ == out@); }
+        res
+//@ spec
+    requires
+        self.wf_nodes(),
+        key_model_ok::<T>(),
+        // A2, extended: a reference to a node name obeys the key model like the name itself
+        vstd::std_specs::hash::obeys_key_model::<&T>(),
+    ensures
+        // [C02.edges.out_edges_of_node_set_guards]
+        !self.specs.directed ==> is_err_kind(r, ErrorKind::WrongMethod),
+        self.specs.directed && !(forall|i: int| 0 <= i < names@.len() ==> self.knows(#[trigger] names@[i])) ==> is_err_kind(r, ErrorKind::NodeNotFound),
+        // [C02.edges.out_edges_of_node_set_is_the_filter_of_all_edges]
+        self.specs.directed && (forall|i: int| 0 <= i < names@.len() ==> self.knows(#[trigger] names@[i])) ==> r.is_ok()
+            && exists|keep: Seq<int>| #[trigger] edges_selected(*self, names@, 2, keep, r.unwrap()@),
+//@ end
+}
